@@ -502,16 +502,22 @@ impl<C: CellType> Expr<C> {
             .iter()
             .all(|part| part.vars.iter().filter(|&x| x == &var).count() == 1)
         {
-            let mut parts = SmallVec::with_capacity(self.parts.len());
+            // Removing the variable can change the order of the parts and can
+            // make two of them equal, so they are merged one at a time.
+            let mut res = Expr {
+                parts: SmallVec::new(),
+            };
             for part in &self.parts {
                 let mut vars = SmallVec::with_capacity(part.vars.len() - 1);
                 vars.extend(part.vars.iter().copied().filter(|&v| v != var));
+                let mut parts = SmallVec::new();
                 parts.push(ExprPart {
                     coef: part.coef,
                     vars,
                 });
+                res = res.add(Expr { parts });
             }
-            Some(Expr { parts })
+            Some(res)
         } else {
             None
         }
